@@ -215,6 +215,7 @@ def run(case):
         STATS.cls("messages_after_stop", case["after"] > 0)
         STATS.cls("cycles", case["cycles"] > 0)
         STATS.cls("cycles>=60", case["cycles"] >= 60)
+        STATS.cls("every_cycle_under_traffic_from_another_thread", bool(case.get("cycleRacer")) and not case.get("alignStop") and case["cycles"] > 0 and case["config"] != "oneline")
         STATS.cls("stop_aligned_with_worker_finishing", bool(case.get("alignStop")))
         STATS.cls("stop_" + case["stop"])
         STATS.cls("app_" + case["app"])
@@ -268,6 +269,7 @@ def strategy():
             cycles=cycles, cycleMsgs=(draw(st.integers(1, 8)) if cycles < 50 else draw(st.integers(1, 2))) if cycles else 0,
             loopRan=loop_ran, reAsync=draw(st.booleans()) if loop_ran else False,
             alignStop=draw(st.booleans()) if (cycles >= 60 and app != "none") else False,
+            cycleRacer=draw(st.sampled_from([0, 1, 1])) if cycles >= 4 else 0,  # (ignored by the runner together with alignStop)
             # the delivery of the last queued message takes longer than the 3 s the stop grants the thread to finish
             stallMs=draw(st.sampled_from([0] * 19 + [3500])) if (config == "fluent" and racers == 0 and backlog > 0 and stop != "exit_call") else 0,
         )
